@@ -61,8 +61,11 @@ func classify(err error) string {
 	return "other:" + s
 }
 
-// readAll reads messages until the first error, like readData/readLoop do.
-func readAll(r agent.ByteReadReader, mk func() proto.Message) (msgs []proto.Message, end string, panicked string) {
+// readAll reads messages until the first error, like readData/readLoop do.  reuse: every frame is decoded into
+// ONE message value, as Agent.readLoop does (`request := &Request{}` outside its loop) - ReadMessage has to leave
+// in it exactly the message of the frame, whatever the previous frame was (in particular for a frame without
+// body); otherwise into a fresh value per frame, as Server.readResponse does.  The messages returned are copies.
+func readAll(r agent.ByteReadReader, mk func() proto.Message, reuse bool) (msgs []proto.Message, end string, panicked string) {
 	defer func() {
 		if x := recover(); x != nil {
 			panicked = fmt.Sprint(x)
@@ -70,13 +73,17 @@ func readAll(r agent.ByteReadReader, mk func() proto.Message) (msgs []proto.Mess
 		}
 	}()
 	var buf []byte
+	one := mk()
 	for {
-		m := mk()
+		m := one
+		if !reuse {
+			m = mk()
+		}
 		err := agent.ReadMessage(&buf, r, m)
 		if err != nil {
 			return msgs, classify(err), ""
 		}
-		msgs = append(msgs, m)
+		msgs = append(msgs, proto.Clone(m))
 	}
 }
 
@@ -84,6 +91,14 @@ type frameStream struct {
 	name string
 	msgs []proto.Message
 	raw  []byte // hostile bytes (msgs empty)
+	req  bool   // the messages are Requests (the agent's direction), not Responses
+}
+
+func reqKA(t int64) *agent.Request {
+	return &agent.Request{Message: &agent.Request_Keepalive{Keepalive: &agent.KeepaliveRequest{Time: t}}}
+}
+func reqPoint(n int) *agent.Request {
+	return &agent.Request{Message: &agent.Request_Point{Point: respPoint(n).Message.(*agent.Response_Point).Point}}
 }
 
 func respPoint(n int) *agent.Response {
@@ -106,8 +121,11 @@ func varint(x uint64) []byte {
 // RunFrame enumerates streams x fragmentations x reader wirings.
 func RunFrame(r *rt.Run) error {
 	t := r.NewTrace("frame")
-	mk := func() proto.Message { return new(agent.Response) }
+	mkResp := func() proto.Message { return new(agent.Response) }
+	mkReq := func() proto.Message { return new(agent.Request) }
 	empty := &agent.Response{}
+	emptyReq := &agent.Request{}
+	snapReq := &agent.Request{Message: &agent.Request_Snapshot{Snapshot: &agent.SnapshotRequest{}}}
 	short := []frameStream{
 		{name: "ka", msgs: []proto.Message{respKA(1)}},
 		{name: "empty,ka", msgs: []proto.Message{empty, respKA(1)}},
@@ -115,11 +133,15 @@ func RunFrame(r *rt.Run) error {
 		{name: "ka,ka", msgs: []proto.Message{respKA(200), respKA(1)}},
 		{name: "empty,empty", msgs: []proto.Message{empty, empty}},
 		{name: "point", msgs: []proto.Message{respPoint(1)}},
+		// the agent's direction: empty requests (frames without body) before, between and after other requests
+		{name: "req:ka,empty,snap,empty", req: true, msgs: []proto.Message{reqKA(42), emptyReq, snapReq, emptyReq}},
+		{name: "req:empty,ka,empty,empty", req: true, msgs: []proto.Message{emptyReq, reqKA(1), emptyReq, emptyReq}},
 	}
 	medium := []frameStream{
 		{name: "point,snap130,ka", msgs: []proto.Message{respPoint(3), respSnap(130), respKA(1)}}, // 2-byte header
 		{name: "snap127,snap128", msgs: []proto.Message{respSnap(100), respSnap(101), respSnap(102)}},
 		{name: "points", msgs: []proto.Message{respPoint(1), respPoint(120), respPoint(2), empty, respPoint(130)}},
+		{name: "req:point,empty,point,empty,ka,empty", req: true, msgs: []proto.Message{reqPoint(3), emptyReq, reqPoint(130), emptyReq, reqKA(7), emptyReq}},
 	}
 	long := []frameStream{
 		{name: "snap20000", msgs: []proto.Message{respKA(1), respSnap(20000), respPoint(5)}}, // 3-byte header
@@ -140,7 +162,15 @@ func RunFrame(r *rt.Run) error {
 	}
 
 	wirings := []string{"bufio", "bufio16", "raw"}
+	nRun := 0
+	isReq := false
 	runOne := func(data []byte, cuts []int, wiring string, want []proto.Message) rt.M {
+		nRun++
+		reuse := nRun%2 == 0 // both decoding disciplines over all the splits and wirings
+		mk := mkResp
+		if isReq {
+			mk = mkReq
+		}
 		sr := &sliceReader{data: append([]byte(nil), data...), cuts: append([]int(nil), cuts...)}
 		var rd agent.ByteReadReader
 		switch wiring {
@@ -151,14 +181,14 @@ func RunFrame(r *rt.Run) error {
 		default:
 			rd = sr
 		}
-		got, end, pan := readAll(rd, mk)
+		got, end, pan := readAll(rd, mk, reuse)
 		eq := len(got) <= len(want) || want == nil // hostile streams: nothing to compare with
 		for i := range got {
 			if i < len(want) && !proto.Equal(got[i], want[i]) {
 				eq = false
 			}
 		}
-		m := rt.M{"cuts": intsI(cuts), "wiring": wiring, "n": len(got), "eq": eq, "end": end}
+		m := rt.M{"cuts": intsI(cuts), "wiring": wiring, "n": len(got), "eq": eq, "end": end, "decode": map[bool]string{true: "reused", false: "fresh"}[reuse]}
 		if pan != "" {
 			m["panic"] = pan
 		}
@@ -179,6 +209,8 @@ func RunFrame(r *rt.Run) error {
 		return bb.Bytes(), lens
 	}
 	begin := func(fs frameStream, data []byte, lens []int, closedAt int) {
+		isReq = fs.req
+		nRun = 0
 		t.Reset(rt.M{"mode": "frame"})
 		t.Event("Stream", rt.M{"name": fs.name, "bytes": ints(data[:closedAt]), "lens": intsI(lens), "whole": closedAt == len(data), "hostile": fs.raw != nil})
 	}
